@@ -33,6 +33,10 @@ pub struct Hist {
     /// inner emissions of a `with` op: (site, kind, val, inv, ret)
     pub inner: Vec<(i64, u8, u64, u64, u64)>,
     pub panicked: bool,
+    /// the emission was cut short by an injected panic in a collector's register_callsite
+    pub rpanic: bool,
+    /// site of the farewell event a collector created by this op emits from its destructor (-1: none)
+    pub eod: i64,
 }
 
 pub static HIST: Mutex<Vec<Hist>> = Mutex::new(Vec::new());
@@ -95,7 +99,7 @@ pub fn exec_step(gi: usize, t: usize, s: &Value, guards: &mut Vec<dispatch::Defa
     let site = s["site"].as_i64().unwrap_or(-1);
     let kind = s["kind"].as_u64().unwrap_or(0) as u8;
     let val = (gi as u64 + 1) * 1000;
-    let mut h = Hist { gi, t, op: op.clone(), k, site, kind, val, applied: true, who: -2, maxlvl: -1, ..Default::default() };
+    let mut h = Hist { gi, t, op: op.clone(), k, site, kind, val, applied: true, who: -2, maxlvl: -1, eod: s["eod"].as_i64().unwrap_or(-1), ..Default::default() };
     h.inv = detsim::stamp();
     match op.as_str() {
         "new" => {
@@ -109,6 +113,9 @@ pub fn exec_step(gi: usize, t: usize, s: &Value, guards: &mut Vec<dispatch::Defa
                 let d = if s["st"].as_bool().unwrap_or(false) {
                     let c: &'static RecCollect = Box::leak(Box::new(RecCollect::new(k as usize, f.clone())));
                     Dispatch::from_static(c)
+                } else if let Some(site) = s["eod"].as_u64() {
+                    // a collector that emits a farewell event from its own destructor
+                    Dispatch::new(RecCollect::new(k as usize, f.clone()).with_emit_on_drop(site as usize))
                 } else if s["late"].as_bool().unwrap_or(false) {
                     // a collector that configures its filter in `on_register_dispatch`
                     Dispatch::new(RecCollect::new(k as usize, f.clone()).with_late_init())
@@ -177,7 +184,15 @@ pub fn exec_step(gi: usize, t: usize, s: &Value, guards: &mut Vec<dispatch::Defa
             }
         }
         "emit" => {
-            if s["cpanic"].as_bool().unwrap_or(false) {
+            if s["rpanic"].as_bool().unwrap_or(false) {
+                // fault: if this emission is the callsite's first hit, a collector's register_callsite panics
+                // (caught); the emission is lost, but later hits of the callsite must be judged as ever
+                crate::rec::PANIC_NEXT_REGISTER.with(|c| c.set(true));
+                let r = catch_unwind(AssertUnwindSafe(|| do_emit(site, kind, val)));
+                crate::rec::PANIC_NEXT_REGISTER.with(|c| c.set(false));
+                h.panicked = r.is_err();
+                h.rpanic = h.panicked;
+            } else if s["cpanic"].as_bool().unwrap_or(false) {
                 // fault: the collector's own callback panics (after recording the delivery); the panic is caught
                 // around the emission, and the thread's dispatcher state must be as before afterwards
                 crate::rec::PANIC_NEXT_CALLBACK.with(|c| c.set(true));
@@ -255,8 +270,35 @@ thread_local! {
 }
 pub static LATE_SCOPES: AtomicUsize = AtomicUsize::new(0);
 
+/// Thread-exit effect: a thread-local (created before its thread ever touches tracing, so destroyed after tracing's
+/// own thread-locals) whose destructor emits an event. The thread has no scope any more; the process-wide default
+/// applies.
+struct LateEmit {
+    t: usize,
+    site: usize,
+}
+impl Drop for LateEmit {
+    fn drop(&mut self) {
+        fault("emission_in_tls_destructor");
+        let val = 8_000_000 + self.t as u64;
+        let inv = detsim::stamp();
+        sites::emit_event(self.site, val);
+        let ret = detsim::stamp();
+        HIST.lock().unwrap().push(Hist { gi: usize::MAX - 1, t: self.t, op: "emit".into(), k: -1, site: self.site as i64, kind: 0, val, inv, ret, applied: true, who: -2, maxlvl: -1, eod: -1, ..Default::default() });
+    }
+}
+thread_local! {
+    static LATE_E: std::cell::RefCell<Option<LateEmit>> = std::cell::RefCell::new(None);
+}
+/// bit t set: thread t emits from a thread-local destructor; the low byte of the upper half carries the site
+pub static LATE_EMIT: AtomicUsize = AtomicUsize::new(0);
+
 fn thread_body(t: usize, mine: Vec<(usize, Value)>, sync: bool) {
     // registered before this thread ever touches tracing (runs after tracing's thread-locals are destroyed) ...
+    let le = LATE_EMIT.load(Ordering::SeqCst);
+    if t > 0 && le & (1 << t) != 0 {
+        LATE_E.with(|s| *s.borrow_mut() = Some(LateEmit { t, site: (le >> 8) % sites::N }));
+    }
     let late = t > 0 && LATE_SCOPES.load(Ordering::SeqCst) & (1 << t) != 0;
     if late {
         LATE_A.with(|s| *s.borrow_mut() = Some(LateScope));
@@ -318,8 +360,8 @@ impl Engine for CoreEngine {
     }
     fn rule(&self, prop: &str) -> String {
         match prop {
-            "C01" => "history over {new collector with filter (static, dynamic, or reloadable: two static configurations, the flip rebuilds the interest cache and moves the hint; a quarter of the collectors configure themselves only in on_register_dispatch), drop handle, open/close scope, with_default (optionally panicking), set_global_default, emit event/span at a pool site (contextual and explicit-parent macro arms, less common event! forms; the collector's own callback may panic, caught), enabled! probe, rebuild_interest_cache, flip} on 1-3 threads in a seeded total order, a quarter of the runs as seeded schedules over a shared pair of sites; non-trivial = at least one expected delivery AND one expected suppression after at least one collector change; distinct = distinct plan digest".into(),
-            "C02" => "history (op granularity, total order) or schedule (sync granularity: every atomic op of tracing-core is a preemption point) over {open/close scope (a quarter of the collectors behind Dispatch::from_static, an eighth of the scopes Dispatch::none()), with_default incl. unwinding, set_global_default from any thread, emit (the collector's callback may panic, caught), Dispatch identity read}, 1-4 threads, a third of the runs with thread-local destructors that open and close a scope while their thread exits, including dispatcher use before the global default exists; non-trivial = at least one emission expected at a scoped collector and one at the global default (or discarded); distinct = distinct (plan, schedule digest)".into(),
+            "C01" => "history over {new collector with filter (static, dynamic, or reloadable: two static configurations, the flip rebuilds the interest cache and moves the hint; a quarter of the collectors configure themselves only in on_register_dispatch), drop handle, open/close scope, with_default (optionally panicking), set_global_default, emit event/span at a pool site (contextual and explicit-parent macro arms, less common event! forms; the collector's own callback may panic, caught), enabled! probe, rebuild_interest_cache, flip; faults: a collector panics in register_callsite on a first hit (caught), a thread emits from a thread-local destructor at exit} on 1-3 threads in a seeded total order, a quarter of the runs as seeded schedules over a shared pair of sites; non-trivial = at least one expected delivery AND one expected suppression after at least one collector change; distinct = distinct plan digest".into(),
+            "C02" => "history (op granularity, total order) or schedule (sync granularity: every atomic op of tracing-core is a preemption point) over {open/close scope (a quarter of the collectors behind Dispatch::from_static, an eighth of the scopes Dispatch::none()), with_default incl. unwinding, set_global_default from any thread, emit (the collector's callback may panic, caught), Dispatch identity read}, 1-4 threads, a third of the collectors of total-order runs emitting a farewell event from their own destructor (judged against the default as restored by the op that removed their last reference), a third of the runs with a thread that emits from a thread-local destructor at exit, a third of the runs with thread-local destructors that open and close a scope while their thread exits, including dispatcher use before the global default exists; non-trivial = at least one emission expected at a scoped collector and one at the global default (or discarded); distinct = distinct (plan, schedule digest)".into(),
             _ => "2-3 threads x <=4 ops from {first hit of shared pool sites, Dispatch::new (a third of the collectors reloadable), drop, set_default+emit, set_global_default, rebuild_interest_cache, flip of a reloadable collector followed by its rebuild} under seeded schedules at atomic-op/lock granularity, then a quiescence probe phase; non-trivial = at least one scheduling decision with >=2 runnable threads while two threads touched the same callsite or the dispatcher list; distinct = distinct (plan, schedule digest)".into(),
         }
     }
@@ -479,6 +521,8 @@ impl Engine for CoreEngine {
                     }
                     if prop == "C02" && rng.chance(1, 4) {
                         steps.push(json!({"t": t, "op": "new", "k": k, "f": f, "st": true}));
+                    } else if prop == "C02" && !sync && rng.chance(1, 3) {
+                        steps.push(json!({"t": t, "op": "new", "k": k, "f": f, "eod": rng.below(sites::N as u64)}));
                     } else if prop == "C01" && rng.chance(1, 4) {
                         steps.push(json!({"t": t, "op": "new", "k": k, "f": f, "late": true}));
                     } else {
@@ -574,6 +618,8 @@ impl Engine for CoreEngine {
                         }
                         if rng.chance(1, 8) {
                             json!({"t": t, "op": "emit", "site": site, "kind": kind, "cpanic": true})
+                        } else if prop == "C01" && rng.chance(1, 8) {
+                            json!({"t": t, "op": "emit", "site": site, "kind": kind, "rpanic": true})
                         } else {
                             json!({"t": t, "op": "emit", "site": site, "kind": kind})
                         }
@@ -597,7 +643,8 @@ impl Engine for CoreEngine {
         let sched = if sync { Sched::swarm(&mut rng, if prop == "C04" { 300 } else { 600 }) } else { Sched::op_order(rng.next_u64()) };
         json!({
             "engine": "core", "prop": g.prop, "mode": g.mode,
-            "cfg": {"threads": nthreads, "collectors": 8, "late_scopes": if prop == "C02" && rng.chance(1, 3) { rng.below(16) & !1 } else { 0 }},
+            "cfg": {"threads": nthreads, "collectors": 8, "late_scopes": if prop == "C02" && rng.chance(1, 3) { rng.below(16) & !1 } else { 0 },
+                    "late_emit": if prop != "C04" && rng.chance(1, 3) { (rng.below(16) & !1) | (rng.below(sites::N as u64) << 8) } else { 0 }},
             "pre": pre,
             "steps": steps,
             "sched": serde_json::to_value(&sched).unwrap(),
@@ -624,6 +671,7 @@ impl Engine for CoreEngine {
         let pre: Vec<Value> = plan["pre"].as_array().cloned().unwrap_or_default();
         std::panic::set_hook(Box::new(|_| {}));
         LATE_SCOPES.store(plan["cfg"]["late_scopes"].as_u64().unwrap_or(0) as usize, Ordering::SeqCst);
+        LATE_EMIT.store(plan["cfg"]["late_emit"].as_u64().unwrap_or(0) as usize, Ordering::SeqCst);
         {
             let mut sl = SLOTS.lock().unwrap();
             sl.handles = vec![None; ncoll];
@@ -727,6 +775,11 @@ fn oracle(prop: &str, sync: bool, hist: &[Hist], log: &[Rec], filters: &[Option<
     let mut flipped = vec![false; filters.len()];
     // live collectors for the MAX_LEVEL bound (op mode): handle table, scopes, global
     let mut handle_live = vec![false; filters.len()];
+    let mut dead = vec![false; filters.len()];
+    let mut eod_site: Vec<i64> = vec![-1; filters.len()];
+    for h in hist.iter().filter(|h| h.op == "new" && h.applied && h.eod >= 0 && h.k >= 0 && (h.k as usize) < filters.len()) {
+        eod_site[h.k as usize] = h.eod;
+    }
     let mut global_k: i64 = -1;
     let mut expected_deliveries = 0u64;
     let mut expected_suppressions = 0u64;
@@ -835,6 +888,7 @@ fn oracle(prop: &str, sync: bool, hist: &[Hist], log: &[Rec], filters: &[Option<
                     seen_scoped_delivery = true;
                 }
             }
+            "emit" if h.rpanic => {} // the registration panicked before the emission could be dispatched
             "emit" => {
                 check_emission(t, h.site, h.kind, h.val, h.inv, h.ret, &recv_opts, &flipped, &mut expected_deliveries, &mut expected_suppressions, f1sig);
                 if scopes[t].is_empty() {
@@ -860,6 +914,32 @@ fn oracle(prop: &str, sync: bool, hist: &[Hist], log: &[Rec], filters: &[Option<
                 }
             }
             _ => {}
+        }
+        if !sync {
+            // collectors that emit a farewell event from their destructor: the op that removes a collector's last
+            // reference (handle table, any thread's open scope, the global default) must deliver that event to the
+            // thread's current collector as it is *after* the op - or to nobody, if that collector's filter says so
+            for (k, &dsite) in eod_site.iter().enumerate() {
+                if dsite < 0 || dead[k] {
+                    continue;
+                }
+                let kk = k as i64;
+                let alive = handle_live[k] || scopes.iter().any(|s| s.contains(&kk)) || hist.iter().any(|g| g.op == "global" && g.applied && g.k == kk && g.inv <= h.inv && (g.ok || g.gi == h.gi && g.t == h.t && g.inv == h.inv));
+                if alive {
+                    continue;
+                }
+                dead[k] = true;
+                let recv_after: Vec<i64> = if let Some(&c) = scopes[t].last() {
+                    vec![c]
+                } else {
+                    match g_ok {
+                        Some(g) if g.ret < h.inv => vec![g.k],
+                        _ => vec![-1],
+                    }
+                };
+                check_emission(t, dsite, 0, 7_000_000 + k as u64, h.inv, h.ret, &recv_after, &flipped, &mut expected_deliveries, &mut expected_suppressions, false);
+                probe("farewell-events-judged");
+            }
         }
         if !sync && h.maxlvl >= 0 {
             // upper-bound form: MAX_LEVEL >= the most verbose level any live collector can accept
